@@ -56,7 +56,7 @@ VALUE_TABLE = {
     "3-tuple": {"good": [{"list": ["1", "2", "3"]}], "text": ["(1;2;3)"],
                 "near": ["(1;2)", {"list": ["1", "2"]}]},
 }
-SPECIAL_INPUTS = [None, "", {"list": []}, "[a, b]", "[1, 2, 3]", "(1;2)", {"dict": {"a": 1}},
+SPECIAL_INPUTS = [None, "", {"list": []}, {"tuple": []}, "[a, b]", "[1, 2, 3]", "(1;2)", {"dict": {"a": 1}},
                   {"list": [1, "a"]}, {"list": ["", "x"]}, {"tuple": [1, 2]}, "[(1;2),(3;4)]"]
 
 CARDS_GOOD = [None, 1, 2, 3, {"tuple": [None, 2]}, {"tuple": [1, None]}, {"tuple": [1, 3]},
